@@ -14,6 +14,11 @@ Three exhaustively enumerated parts per tier:
  seq_iter sequence_equal(second iterable): every content of length <= M x iterable kind
           (list, tuple, re-iterable object) x every timeline of the first x comparer.
 
+Alphabet kinds: "num" numbers (all instances), "gen" None/0/False (value-agnostic instances),
+"ord" orderable values on which subtraction is no comparison -- strings, inf -- (min/max/min_by/
+max_by without comparer), "mix" None among numbers (sum/average/min/max: the Python computation
+raises TypeError, the operator has to fail with that class; instant not fixed).
+
 Oracle: the equivalent Python computation on the list of elements (functools.reduce,
 itertools.accumulate, sum, sum/len, min/max with cmp_to_key, list, set, dict, next(filter),
 any/all/in, ==) gives (value, determining input) pairs; values are compared by type and ==
@@ -692,7 +697,8 @@ def run(ctx: core.Ctx):
         "harness LoggedCold source is conforming",
         "comparers are consistent (total preorders) and equality comparers symmetric: the statement does not fix argument order",
     ]
-    part = ctx.sharded(shard)
+    # every shard walks the whole enumeration (index mod nshards keeps them balanced): few, large shards
+    part = ctx.sharded(shard, nshards=2 * max(1, ctx.workers))
     ctx.cov["operators_covered"] = sorted(k[3:] for k in part.counters if k.startswith("op:"))
 
 
